@@ -186,6 +186,7 @@ pub fn plan_to_json(p: &Plan) -> J {
         ("container", J::s(kind_name(p.kind))),
         ("class", J::s(if p.faulty { "faulty" } else { "clean" })),
         ("element", J::s(ELEM_NAMES[p.elem as usize % 4])),
+        ("values", J::s(if p.uniform { "uniform" } else { "distinct" })),
         ("ops", J::Arr(p.ops.iter().map(op_to_json).collect())),
     ])
 }
@@ -205,7 +206,8 @@ pub fn plan_from_json(j: &J) -> Result<Plan, String> {
         Some("ZstDrop") => 3,
         _ => 0,
     };
-    Ok(Plan { kind, faulty, elem, ops })
+    let uniform = j.get("values").and_then(|x| x.as_str()) == Some("uniform");
+    Ok(Plan { kind, faulty, elem, uniform, ops })
 }
 
 pub fn violation_to_json(v: &Violation, op: Option<OpK>) -> J {
@@ -236,6 +238,7 @@ pub fn write_replay(path: &str, seed: u64, run: u64, plan: &Plan, o: &Outcome, m
                 "container" => pairs.push(("container", v)),
                 "class" => pairs.push(("class", v)),
                 "element" => pairs.push(("element", v)),
+                "values" => pairs.push(("values", v)),
                 _ => pairs.push(("ops", v)),
             }
         }
@@ -422,6 +425,16 @@ pub fn minimise_with(plan: &Plan, o: &Outcome, budget: u32, pred: &mut dyn FnMut
                     progress = true;
                     break;
                 }
+            }
+        }
+        // 3a. distinct payload values
+        if best.uniform && tried < budget {
+            let mut c = best.clone();
+            c.uniform = false;
+            if let Some(oc) = attempt(&c, &mut tried) {
+                best = c;
+                best_o = oc;
+                progress = true;
             }
         }
         // 3b. the plain element shape
